@@ -47,6 +47,16 @@ Eviction(o, A, m) == IF o.kind = "ack" /\ m.reply.kind = "ack" /\ Keys(A) # Keys
                      ELSE IF o.kind = "ack" /\ m.reply.kind = "ack" /\ KeyOrder(A) # KeyOrder(Proj(m.st))
                      THEN {"C20_RecencyOrder"} ELSE {}
 
+\* order-only drift: reply and contents agree, only the recency order of some store differs where no formula demands one (e.g.
+\* whether a REJECTED put counts as a use).  The model adopts the observed order and the behaviour goes on, so that one
+\* harmless difference does not hide the rest of the history from the L1 formulas.
+ByKey(q, key) == CHOOSE x \in SeqToSet(q) : x.t = key
+Reordered(q, keys) == Rev([i \in 1..Len(keys) |-> ByKey(q, keys[i])])
+OrderOnly(o, A, m) == o = m.reply /\ A # Proj(m.st) /\ Content(A) = Content(Proj(m.st))
+                      /\ Len(A.imm) = Len(m.st.imm) /\ Len(A.mut) = Len(m.st.mut) /\ Len(A.peers) = Len(m.st.peers) /\ Len(A.sp) = Len(m.st.sp)
+Resync(st, A) == [st EXCEPT !.imm = Reordered(st.imm, KeyOrder(A).imm), !.mut = Reordered(st.mut, KeyOrder(A).mut),
+                            !.peers = Reordered(st.peers, KeyOrder(A).peers), !.sp = Reordered(st.sp, KeyOrder(A).sp)]
+
 \* C15 timing formulas on the observation (tokens.rs + lazy rotation in server.rs)
 Timing(r, o, gap) ==
   IF ~(IsPut(r) /\ FilterAllows(s, r) /\ TokAt(Rec[l].r) >= 0 /\ r.tok.ip = r.from.ip) THEN {}
@@ -73,12 +83,17 @@ Req == /\ Rec[l].e = "req" /\ mode = "ok"
               gap == IF counted THEN (IF s.now - lastReq > maxgap THEN s.now - lastReq ELSE maxgap) ELSE maxgap
               failed == L1Failed(s, r, o, A) \cup Timing(r, o, gap) \cup Eviction(o, A, m)
               conforms == o = m.reply /\ A = Proj(m.st)
+              \* a wrong eviction victim / recency order (C20) is reported and the behaviour goes on against the LRU reference:
+              \* "evicted by the capacity bound" in C04 means evicted as the least recently used entry, so an item the node
+              \* dropped out of turn and then rolls back / no longer serves shows up as C04_Seq302 / C04_GetReturnsLast further on
+              onlyEviction == failed # {} /\ failed \subseteq {"C20_RecencyOrder", "C20_EvictsLeastRecentlyUsed"} /\ o = m.reply
           IN /\ IF failed # {}
-                THEN PrintT(<<"VIOL", ToJson([line |-> l, b |-> beh, failed |-> failed])>>) /\ mode' = "skip"
+                THEN PrintT(<<"VIOL", ToJson([line |-> l, b |-> beh, failed |-> failed])>>) /\ mode' = (IF onlyEviction THEN "ok" ELSE "skip")
                 ELSE IF ~conforms
-                     THEN PrintT(<<"DRIFT", ToJson([line |-> l, b |-> beh, obs |-> o, model |-> m.reply, obsA |-> A, modelA |-> Proj(m.st)])>>) /\ mode' = "skip"
+                     THEN PrintT(<<"DRIFT", ToJson([line |-> l, b |-> beh, obs |-> o, model |-> m.reply, obsA |-> A, modelA |-> Proj(m.st)])>>)
+                          /\ mode' = (IF OrderOnly(o, A, m) THEN "ok" ELSE "skip")
                      ELSE mode' = "ok"
-             /\ s' = m.st
+             /\ s' = IF failed = {} /\ OrderOnly(o, A, m) THEN Resync(m.st, A) ELSE m.st
              /\ iss' = Append(iss, IF m.reply.tok THEN [ip |-> r.from.ip, ep |-> m.st.cur, at |-> m.st.now]
                                    ELSE [ip |-> "none", ep |-> -9, at |-> -1])
              /\ lastReq' = IF counted THEN s.now ELSE lastReq
